@@ -142,6 +142,14 @@ CHECKS.update({
     ),
 })
 
+CHECKS.update({
+    "C13": dict(
+        technique="metamorphic property-based testing: generated definition sets are edited (trivia inserted at token boundaries, CRLF, dependency-respecting permutations, split loads) and the resulting type/constant signatures and parse behaviour compared with the unedited base; alias identity and resolve-error checks with a watchdog",
+        text="generated definition texts x generated edits: inserting comments/whitespace at token boundaries, permuting independent items and splitting the text over several load() calls must leave every user-visible name with the same kind, size, alignment, fields, offsets, enum values, constants and the same parse results; typedef chains/multi-names/built-in synonyms must be the identical type object, same-target re-declaration accepted, different-target refused, unknown and cyclic aliases a ResolveError (no hang)",
+        design_ref="DESIGN.md §4 C13",
+    ),
+})
+
 NOT_YET = {}
 
 
